@@ -433,6 +433,7 @@ type Contract struct {
 	Trusted    bool // body not verified here (stated assumption)
 	MayPanic   bool // explicit panic statements are allowed
 	Fresh      bool // result is memory allocated by the call
+	DeadReturns int // number of return statements the contract declares unreachable
 	Params     []string
 	Results    []string
 	Requires   []*Clause
@@ -464,7 +465,7 @@ type ContractSet struct {
 	Files  []string
 }
 
-var clauseHead = regexp.MustCompile(`^(func|external|lemma|requires|ensures|invariant|decreases|assigns|loop|trusted|may_panic|fresh|var|hyp|concl|fuel|opaque)\b(\[[^\]]*\])?\s*(.*)$`)
+var clauseHead = regexp.MustCompile(`^(func|external|lemma|requires|ensures|invariant|decreases|assigns|loop|trusted|may_panic|fresh|dead_returns|var|hyp|concl|fuel|opaque)\b(\[[^\]]*\])?\s*(.*)$`)
 
 func loadContracts(files []string) (*ContractSet, error) {
 	cs := &ContractSet{ByKey: map[string]*Contract{}}
@@ -621,6 +622,12 @@ func (cs *ContractSet) parseFile(file, src string) error {
 				return fmt.Errorf("%s:%d: trusted outside func", file, r.line)
 			}
 			cur.Trusted = true
+		case "dead_returns":
+			if cur == nil {
+				return fmt.Errorf("%s:%d: dead_returns outside func", file, r.line)
+			}
+			n, _ := strconv.Atoi(strings.TrimSpace(r.rest))
+			cur.DeadReturns = n
 		case "fresh":
 			if cur == nil {
 				return fmt.Errorf("%s:%d: fresh outside func", file, r.line)
